@@ -143,6 +143,15 @@ def o_path_nodes(case):
     if ref is None:
         return ["out-of-reach:invalid-master"]
     node = net.keys.bip32_seed(seed)
+    if len(path) % 2:
+        # the optional argument of fingerprint(): the identifier of the uncompressed form of the key; asking for it (a
+        # wallet listing both address forms does) changes nothing about the node or its children
+        import hashlib
+        sec_u = b"\x04" + ref.K[0].to_bytes(32, "big") + ref.K[1].to_bytes(32, "big")
+        want_u = hashlib.new("ripemd160", hashlib.sha256(sec_u).digest()).digest()[:4]
+        got_u = node.fingerprint(is_compressed=False)
+        if bytes(got_u) != want_u:
+            _bad("bip32:master:fingerprint-uncompressed", "fingerprint(is_compressed=False) = %s, expected %s" % (bytes(got_u).hex(), want_u.hex()))
     compare("master", node, ref, vers, "master of seed %s on %s" % (case["seed"], code))
     nodes, refs = [node], [ref]
     for d, (i, h, _sp) in enumerate(path):
